@@ -12,6 +12,7 @@ package main
 
 import (
 	"context"
+	"crypto"
 	"encoding/json"
 	"fmt"
 	"io"
@@ -125,6 +126,9 @@ type checker struct {
 	valid   sync.Map // every validly signed document the harness holds (string -> true)
 	only    string
 	docs    []*docCase
+	// secret ring files holding BOTH test entities (in either order), for signing through
+	// SignRequest.SecretKeyringPath, where the signing entity must be picked by the named key
+	multiRings []string
 
 	smu      sync.Mutex
 	vsamples int
@@ -355,6 +359,22 @@ func (c *checker) judge(m *mut, vr *jsonsign.VerifyRequest, wit any) {
 	}
 	sp, err := parseSigPacket(lenientPacketBytes(sig))
 	if err != nil {
+		// The bytes after the separator are not a JSON object the harness can read (or hold no packet
+		// it can read).  The payload question is already decided above (P is a ledger payload of the
+		// named key); the remaining question is only whether the signature text that follows the
+		// separator is one of the ledger's, which can be read off the bytes: S runs up to the next '"'.
+		rest := doc[i+len(sep):]
+		if q := strings.IndexByte(rest, '"'); q >= 0 {
+			rest = rest[:q]
+		}
+		if sp2, err2 := parseSigPacket(lenientPacketBytes(rest)); err2 == nil {
+			for _, have := range sigs {
+				if have == sp2 {
+					r.Count("accepted_with_unreadable_signature_object_but_ledger_signature_text", 1)
+					return
+				}
+			}
+		}
 		r.Inconclusive(fmt.Sprintf("accepted mutant %s carries a signature the harness cannot parse; cannot decide whether it is one of the ledger's", m.caseID()))
 		return
 	}
@@ -625,6 +645,23 @@ func run(r *ev.Run) {
 		return
 	}
 
+	// secret rings holding both entities: a key ring file is the concatenation of its entities' packets
+	if b1, err1 := os.ReadFile(c.keys[0].ring); err1 == nil {
+		if b2, err2 := os.ReadFile(c.keys[1].ring); err2 == nil {
+			dir := ev.Scratch("c16-rings")
+			defer os.RemoveAll(dir)
+			for n, b := range [][]byte{append(append([]byte(nil), b1...), b2...), append(append([]byte(nil), b2...), b1...)} {
+				f := filepath.Join(dir, fmt.Sprintf("both%d.gpg", n))
+				if os.WriteFile(f, b, 0o600) == nil {
+					c.multiRings = append(c.multiRings, f)
+				}
+			}
+		}
+	}
+	if len(c.multiRings) != 2 {
+		r.Inconclusive("cannot write the two-entity secret rings")
+	}
+
 	// ---- documents, signed (rule 1)
 	nDocs := r.Pick(36, 220)
 	nFull := r.Pick(1, 14) // documents (the shortest ones) that get all 256 byte values at every position
@@ -649,7 +686,17 @@ func run(r *ev.Run) {
 		}
 		var ok bool
 		var err error
-		if !r.Guard("Sign", map[string]any{"case_id": id, "unsigned": j}, func() { d.signed, err = c.signAs(k, k.ref, j, d.sigTime) }) {
+		signFn := func(t time.Time) (string, error) { return c.signAs(k, k.ref, j, t) }
+		path := "EntityFetcher(single-entity ring)"
+		if i%9 == 7 && len(c.multiRings) > 0 {
+			ring := c.multiRings[(i/9)%len(c.multiRings)]
+			path = "SecretKeyringPath(ring holding both keys)"
+			signFn = func(t time.Time) (string, error) {
+				sr := &jsonsign.SignRequest{UnsignedJSON: j, Fetcher: c.fetcher, ServerMode: true, SecretKeyringPath: ring, SignatureTime: t}
+				return sr.Sign(c.ctx)
+			}
+		}
+		if !r.Guard("Sign", map[string]any{"case_id": id, "unsigned": j}, func() { d.signed, err = signFn(d.sigTime) }) {
 			if err != nil {
 				r.Violation("sign-output/error", fmt.Sprintf("Sign refused a valid unsigned object: %v", err), map[string]any{"case_id": id, "unsigned": j})
 				d.signed = ""
@@ -660,17 +707,34 @@ func run(r *ev.Run) {
 				d.S, d.signed = "", ""
 				continue
 			}
+			// "all signature times": the signature is made at the time the caller asked for
+			c.checkSigTime("sign-output/signature-time", id, d.packet, d.sigTime, map[string]any{"case_id": id, "unsigned": j, "signed": d.signed, "signature_time": d.sigTime.Format(time.RFC3339)})
 		}
 		// the same object signed at another time is a second valid document
+		// (the first documents get the edge-of-format times: zero value, the epoch, before it, beyond
+		// 32-bit seconds; the signature format holds 32-bit seconds, so only representable times are
+		// compared with what the signature states)
 		t2 := hw.T(years[(i+5)%len(years)], 86400+rng.Intn(1000000))
-		if s2, err := c.signAs(k, k.ref, j, t2); err == nil {
-			if S2, _, ok := c.checkSignOutput(id+"/second-time", k, true, j, s2); ok {
+		if i < len(edgeTimes) {
+			t2 = edgeTimes[i].t
+			r.Note("edge_signature_times", edgeTimes[i].name)
+		}
+		var s2 string
+		if !r.Guard("Sign", map[string]any{"case_id": id + "/second-time", "unsigned": j}, func() { s2, err = signFn(t2) }) {
+			if err != nil {
+				r.Violation("sign-output/error", fmt.Sprintf("Sign at signature time %s refused a valid unsigned object: %v", t2.UTC().Format(time.RFC3339), err),
+					map[string]any{"case_id": id + "/second-time", "unsigned": j, "signature_time": t2.UTC().Format(time.RFC3339)})
+			} else if S2, p2, ok := c.checkSignOutput(id+"/second-time", k, true, j, s2); ok {
 				d.signed2 = s2
 				if S2 == d.S {
 					r.Count("same_signature_for_two_times", 1)
 				}
+				if !t2.IsZero() && t2.Unix() >= 0 && t2.Unix() < 1<<32 {
+					c.checkSigTime("sign-output/signature-time", id+"/second-time", p2, t2, map[string]any{"case_id": id + "/second-time", "unsigned": j, "signed": s2, "signature_time": t2.UTC().Format(time.RFC3339)})
+				}
 			}
 		}
+		r.Note("signing_paths", path)
 		for _, f := range feats {
 			r.Note("doc_features", f)
 		}
@@ -684,6 +748,58 @@ func run(r *ev.Run) {
 			r.Sample(map[string]any{"kind": "document", "case_id": id, "features": feats, "signing_key": k.name, "signature_time": d.sigTime.Format(time.RFC3339), "unsigned": j, "signed": d.signed})
 		}
 	}
+
+	// ---- documents whose signature a foreign OpenPGP implementation made with another digest
+	// algorithm.  The property does not say that these verify (it speaks of what perkeep's signing
+	// yields); it says that IF one verifies, its payload and signature are ones the named key made,
+	// and that its tampered copies do not.  They go into the ledger and, when accepted, through
+	// every mutation class like any other document.
+	frng := r.Rand("foreign-digests")
+	fg := &docGen{rng: frng}
+	digests := []struct {
+		name string
+		h    crypto.Hash
+	}{{"SHA1", crypto.SHA1}, {"SHA512", crypto.SHA512}, {"SHA1", crypto.SHA1}, {"SHA224", crypto.SHA224}, {"SHA384", crypto.SHA384}, {"SHA256", crypto.SHA256}}
+	for n, dg := range digests[:r.Pick(3, len(digests))] {
+		i := len(c.docs)
+		k := c.keys[n%2]
+		j, feats := fg.generate(docSpec{style: n % styles, rawLook: n%2 == 0, trailWS: n%2 == 1, signerRef: k.ref})
+		d := &docCase{idx: i, key: k, J: j, T: payloadOf(j), feats: feats, sigTime: hw.T(years[n%len(years)], frng.Intn(365*86400))}
+		c.docs = append(c.docs, d)
+		id := fmt.Sprintf("doc%d", i)
+		pkt, err := foreignBinarySig(k, d.T, d.sigTime, dg.h)
+		if err != nil {
+			r.Inconclusive(fmt.Sprintf("%s: cannot build a %s signature: %v", id, dg.name, err))
+			continue
+		}
+		sp, err := parseSigPacket(pkt)
+		if err != nil {
+			r.Inconclusive(fmt.Sprintf("%s: the harness cannot read the %s signature packet it built", id, dg.name))
+			continue
+		}
+		c.led.add(k.s.KeyID, d.T, sp)
+		S := encodeSig(pkt)
+		signed := d.T + sep + S + tail
+		t := tally{}
+		if c.only == "" || strings.HasPrefix(c.only, id+"/") {
+			c.try(&mut{Doc: i, Class: "foreign-digest", Region: "signature", Pos: n, text: signed}, t)
+		}
+		verdict := "rejected"
+		if t["verified_mutants/foreign-digest/signature"] > 0 || c.only != "" {
+			// accepted (and judged by the ledger): a valid document from here on
+			verdict = "accepted"
+			c.valid.Store(signed, true)
+			d.signed, d.S, d.packet = signed, S, pkt
+			r.Count("documents", 1)
+			r.Count("document_bytes_total", len(signed))
+		}
+		c.flush(t)
+		r.Note("foreign_digest_documents", dg.name+":"+verdict)
+		r.Note("foreign_digests_built", dg.name)
+	}
+
+	// ---- many callers signing at once through shared signing objects (rule 1 per caller)
+	c.concurrentSigning()
 
 	// ---- mutants (rule 2), in parallel
 	type job func()
@@ -758,10 +874,33 @@ func run(r *ev.Run) {
 		r.Require("doc_features", "compact", "indented", "odd-whitespace", "unicode", "nesting", "lookalike-escaped", "lookalike-raw",
 			"embedded-signed-doc", "leading-ws", "trailing-ws", "ws-before-closing-brace")
 		r.Require("signing_keys", "key1", "key2")
+		r.Require("foreign_digests_built", "SHA1", "SHA512")
+		r.Require("signing_paths", "EntityFetcher(single-entity ring)", "SecretKeyringPath(ring holding both keys)")
+		var en []string
+		for _, e := range edgeTimes {
+			en = append(en, e.name)
+		}
+		r.Require("edge_signature_times", en...)
 		if len(yearsSeen) < 3 {
 			r.Inconclusive("fewer than 3 distinct signature years")
 		}
 	}
+}
+
+// edgeTimes are signature times at the edges of what the signature format (32-bit seconds since
+// 1970) and time.Time can say.
+var edgeTimes = []struct {
+	name string
+	t    time.Time
+}{
+	{"zero-value", time.Time{}},
+	{"epoch", time.Unix(0, 0)},
+	{"one-second-before-epoch", time.Unix(-1, 0)},
+	{"1950", time.Date(1950, 6, 1, 12, 0, 0, 0, time.UTC)},
+	{"2038-overflow-of-int32", time.Unix(1<<31, 0)},
+	{"last-32-bit-second", time.Unix(1<<32-1, 0)},
+	{"beyond-32-bit-seconds", time.Unix(1<<32+5, 0)},
+	{"sub-second-and-zone", time.Date(2011, 3, 4, 5, 6, 7, 999999999, time.FixedZone("x", -7*3600))},
 }
 
 var allBytes = func() []byte {
@@ -773,4 +912,4 @@ var allBytes = func() []byte {
 }()
 
 var classes = []string{"text-mode-sig", "subst", "insert", "delete", "truncate", "packet-byte", "payload-extend", "transplant-sig", "double-sig",
-	"resign-other-key", "swap-signer", "armor-truncate", "armor-extend", "separator-variant", "sig-json-variant", "unsigned"}
+	"resign-other-key", "swap-signer", "armor-truncate", "armor-extend", "separator-variant", "sig-json-variant", "unsigned", "foreign-digest"}
